@@ -138,3 +138,31 @@ def init_positional(dotted_cls: str) -> Optional[List[str]]:
     fn, _ = got
     a = fn.args
     return [x.arg for x in a.posonlyargs + a.args][1:]
+
+
+_assigned_cache: Dict[str, set] = {}
+
+
+def assigned_attrs(dotted_cls: str, _depth: int = 0) -> set:
+    """names X such that some method of the external class (or one of its
+    bases) contains `self.X = ...` / `self.X += ...` — the attributes the
+    external parent's fit may assign."""
+    if dotted_cls in _assigned_cache:
+        return _assigned_cache[dotted_cls]
+    out: set = set()
+    _assigned_cache[dotted_cls] = out
+    if _depth > 8:
+        return out
+    r = find_class(dotted_cls)
+    if r is None:
+        return out
+    cd, mod = r
+    for n in ast.walk(cd):
+        if isinstance(n, ast.Attribute) and isinstance(n.ctx, ast.Store) and isinstance(n.value, ast.Name) and n.value.id == "self":
+            out.add(n.attr)
+    tree = module_tree(mod)
+    for b in cd.bases:
+        bn = _resolve_in(tree, mod, b)
+        if bn:
+            out |= assigned_attrs(bn, _depth + 1)
+    return out
